@@ -152,6 +152,12 @@ func (e *Engine) LoadContracts(libDir string) error {
 			e.ghostDecls["ev_"+ev] = &ghostDecl{name: "ev_" + ev, typ: intT}
 		}
 		e.axioms = append(e.axioms, cf.Axioms...)
+		for _, u := range cf.Uses {
+			if importAlias[cf.PkgPath] == nil {
+				importAlias[cf.PkgPath] = map[string]string{}
+			}
+			importAlias[cf.PkgPath][u[0]] = u[1]
+		}
 		for _, g := range cf.Guards {
 			if e.guards == nil {
 				e.guards = map[string]string{}
